@@ -11,6 +11,7 @@ import (
 	"path/filepath"
 	"sort"
 	"strings"
+	"verif/mc/explore"
 
 	"verif/mc/common"
 	"verif/mc/sched"
@@ -182,6 +183,10 @@ type monitorList struct{}
 var schedDirSeq int
 
 func init() {
+	explore.ScratchDir = func() string {
+		schedDirSeq++
+		return filepath.Join(scratchDir(), fmt.Sprintf("verif-exec.%d.%d", os.Getpid(), schedDirSeq))
+	}
 	sched.ScratchDir = func() string {
 		schedDirSeq++
 		return filepath.Join(scratchDir(), fmt.Sprintf("verif-sched.%d.%d", os.Getpid(), schedDirSeq))
